@@ -97,6 +97,47 @@ pub fn caps_varied(r: &mut Rng) -> Vec<(u16, Vec<u8>)> {
     all
 }
 
+/// the source descriptor of a demand-active is free text of any length: ASCII, UTF-8 with multi-byte characters at every
+/// alignment, bytes that are not UTF-8 at all
+pub fn source_descriptor(r: &mut Rng) -> Vec<u8> {
+    match r.below(8) {
+        0 => b"RDP\0".to_vec(),
+        1 => Vec::new(),
+        2 => {
+            // ASCII up to a boundary, then multi-byte characters
+            let n = *r.pick(&[0usize, 1, 15, 30, 31, 32, 33, 63, 64, 127, 255]);
+            let mut v = vec![b'a'; n];
+            for _ in 0..r.range(1, 6) {
+                v.extend_from_slice(*r.pick(&["\u{e9}".as_bytes(), "\u{4e2d}".as_bytes(), "\u{1f511}".as_bytes()]));
+            }
+            v
+        }
+        3 => {
+            let n = *r.pick(&[1usize, 2, 31, 32, 33, 64, 300]);
+            vec![0xff; n]
+        }
+        4 => {
+            let n = r.range(0, 70) as usize;
+            let mut v = Vec::new();
+            for _ in 0..n {
+                v.extend_from_slice("\u{e9}".as_bytes());
+            }
+            if r.chance(1, 2) {
+                v.insert(0, b'x');
+            }
+            v
+        }
+        5 => {
+            let n = *r.pick(&[31usize, 32, 33, 34, 35, 36]);
+            r.bytes(n)
+        }
+        _ => {
+            let n = r.range(0, 300) as usize;
+            r.bytes(n)
+        }
+    }
+}
+
 pub fn profile(r: &mut Rng, selected: u32) -> Profile {
     let mut p = Profile::default();
     p.selected_protocol = selected;
@@ -113,6 +154,9 @@ pub fn profile(r: &mut Rng, selected: u32) -> Profile {
     p.early_caps = *r.pick(&[0u32, 1, 2, 4, 7]);
     p.sec_optional = r.chance(1, 3);
     p.ber_form = *r.pick(&[0u8, 0, 1, 2]);
+    if r.chance(1, 2) {
+        p.source_descriptor = source_descriptor(r);
+    }
     p.extra_blocks.clear();
     if r.chance(1, 3) {
         p.extra_blocks.push((0x0C04, (1004 + r.below(4) as u16).to_le_bytes().to_vec()));
